@@ -109,6 +109,45 @@ pub fn minimise<F: Fn(&Case) -> bool>(case: &Case, still_fails: F, max_evals: us
     cur
 }
 
+/// If the interpreter's observed behaviour is reproduced exactly by the reference machine under the
+/// alternative "unsigned jump immediates are zero-extended" semantics, return the names of the
+/// instructions at which that semantics made the difference (known finding attribution).
+pub fn explained_by_alt(p: &Pre) -> Option<String> {
+    let rr = run_ref_alt(&p.case, &p.bufs, &p.ir, BUDGET, 64, Vec::new(), true);
+    if rr.alt_diverged.is_empty() {
+        return None;
+    }
+    let names = {
+        let mut v: Vec<String> = rr.alt_diverged.iter().map(|o| format!("{}.imm", mnemonic(*o, 0).unwrap_or_default())).collect();
+        v.sort();
+        v.join(",")
+    };
+    let q = Pre { case: p.case.clone(), bufs: Bufs::new(&p.case), ir: clone_ir(&p.ir), rr, tag: String::new() };
+    if matches!(q.rr.outcome, Outcome::Value(_)) && c01_verdict(&q).is_none() { Some(names) } else { None }
+}
+
+fn clone_ir(ir: &InterpRun) -> InterpRun {
+    InterpRun {
+        ran: match &ir.ran {
+            Ran::Ok(v) => Ran::Ok(*v),
+            Ran::Err(e) => Ran::Err(e.clone()),
+            Ran::Panic(e) => Ran::Panic(e.clone()),
+            Ran::Rejected(e) => Ran::Rejected(e.clone()),
+        },
+        steps: ir.steps,
+        pc_hash: ir.pc_hash,
+        max_pc: ir.max_pc,
+        stack_addr: ir.stack_addr,
+        mbuff_addr: ir.mbuff_addr,
+        mbuff_len: ir.mbuff_len,
+        pkt_after: ir.pkt_after.clone(),
+        mbuff_after: ir.mbuff_after.clone(),
+        trace: ir.trace.clone(),
+        helper_log: ir.helper_log.clone(),
+        budget_hit: ir.budget_hit,
+    }
+}
+
 /// C01 verdict for one pre-run case. Returns Some(kind) if it is a violation.
 pub fn c01_verdict(p: &Pre) -> Option<(String, String)> {
     match (&p.rr.outcome, &p.ir.ran) {
@@ -193,6 +232,11 @@ pub fn check_c01(rep: &mut Report, batch: &[Pre]) {
             rep.sample(witness(p, json!({"steps": p.rr.steps})));
         }
         if let Some((kind, detail)) = c01_verdict(p) {
+            if let Some(ops) = explained_by_alt(p) {
+                let sig = format!("C01:interp:known-alt:unsigned-jmp-imm-zero-extended:{ops}");
+                rep.violation(&sig, format!("{detail} [behaviour reproduced exactly by zero-extending the immediate of {ops}]"), witness(p, json!({})));
+                continue;
+            }
             let sigbase = format!("C01:interp:{kind}");
             // minimise (cheap: in-process)
             let want = kind.clone();
@@ -204,8 +248,13 @@ pub fn check_c01(rep: &mut Report, batch: &[Pre]) {
                 },
                 300,
             );
-            let sig = format!("{sigbase}:{}", culprit(&min));
             let q = pre_run(min, p.tag.clone(), BUDGET);
+            if let Some(ops) = explained_by_alt(&q) {
+                let sig = format!("C01:interp:known-alt:unsigned-jmp-imm-zero-extended:{ops}");
+                rep.violation(&sig, format!("{detail} [minimised program reproduced exactly by zero-extending the immediate of {ops}]"), witness(&q, json!({"original": p.case.to_json()})));
+                continue;
+            }
+            let sig = format!("{sigbase}:{}", culprit(&q.case));
             let d2 = c01_verdict(&q).map(|x| x.1).unwrap_or(detail.clone());
             rep.violation(&sig, d2, witness(&q, json!({"original": p.case.to_json()})));
         }
@@ -287,6 +336,17 @@ pub fn check_compiled(rep: &mut Report, prop: &str, batch: &[Pre], engine: Engin
             Err(s) => rep.inconclusive(format!("{}: {s}", p.tag)),
             Ok(None) => rep.count("agree"),
             Ok(Some(m)) => {
+                // is the interpreter the deviating side, in the way a known finding describes?
+                if c01_verdict(p).is_some() {
+                    if let (Some(ops), EngineEnd::Rec(r), Outcome::Value(v)) = (explained_by_alt(p), e, &p.rr.outcome) {
+                        let eng_ok = r.status == 0 && r.value == *v && (!p.rr.pkt_clean || r.pkt == p.rr.pkt_after) && (!p.rr.mbuff_clean || r.mbuff == p.rr.mbuff_after);
+                        if eng_ok {
+                            let sig = format!("{prop}:{}:known-alt:interp-unsigned-jmp-imm-zero-extended:{ops}", engine.name());
+                            rep.violation(&sig, format!("{} [{} follows the ISA; the interpreter's result is reproduced by zero-extending the immediate of {ops}]", m.detail, engine.name()), witness(p, json!({"engine": engine.name()})));
+                            continue;
+                        }
+                    }
+                }
                 let want = m.kind.clone();
                 // minimise, re-running the whole comparison in a fresh child per candidate
                 let min = if rep.sig_count_prefix(&format!("{prop}:{}:{}", engine.name(), m.kind)) < 6 {
@@ -297,7 +357,7 @@ pub fn check_compiled(rep: &mut Report, prop: &str, batch: &[Pre], engine: Engin
                             if !matches!(q.rr.outcome, Outcome::Value(_)) || !matches!(q.ir.ran, Ran::Ok(_)) {
                                 return false;
                             }
-                            let e = run_compiled(&[(&q.case, &q.bufs)], engine, family);
+                            let e = run_compiled_lim(&[(&q.case, &q.bufs)], engine, family, 4, 4);
                             matches!(compare_engine(&q, &e[0], engine), Ok(Some(m2)) if m2.kind == want)
                         },
                         250,
